@@ -87,26 +87,53 @@ package bytes
 //@   requires bks != nil
 //@   ensures r0 == bks.available
 
+// ---- number of free blocks = number of zero bits in the header blocks ----
+// zb(b): zero bits of one byte (closed form)
+//@ spec zb(b byte) int = ite(b & 1 == 0, 1, 0) + ite(b & 2 == 0, 1, 0) + ite(b & 4 == 0, 1, 0) + ite(b & 8 == 0, 1, 0) + ite(b & 16 == 0, 1, 0) + ite(b & 32 == 0, 1, 0) + ite(b & 64 == 0, 1, 0) + ite(b & 128 == 0, 1, 0)
+// zbl(b, j): zero bits among the low j bits of b
+//@ spec zbl(b byte, j uint) int = ite(j > 0 && b & 1 == 0, 1, 0) + ite(j > 1 && b & 2 == 0, 1, 0) + ite(j > 2 && b & 4 == 0, 1, 0) + ite(j > 3 && b & 8 == 0, 1, 0) + ite(j > 4 && b & 16 == 0, 1, 0) + ite(j > 5 && b & 32 == 0, 1, 0) + ite(j > 6 && b & 64 == 0, 1, 0) + ite(j > 7 && b & 128 == 0, 1, 0)
+// zrun(m, base, n): zero bits of the n bytes m[base .. base+n)   (recursive definition, given as two axioms)
+//@ spec zrun(m seq[byte], base int, n int) int = uninterpreted
+//@ axiom zrun0(m seq[byte], base int): zrun(m, base, 0) == 0
+//@ axiom zrunS(m seq[byte], base int, n int): n >= 0 ==> zrun(m, base, n + 1) == zrun(m, base, n) + zb(m[base + n]) && zrun(m, base, n + 1) >= zrun(m, base, n)
+// zhdr(m, base, ss, bs, s): zero bits of the header blocks of the first s segments (segment k's header: bs bytes at base + k*ss)
+//@ spec zhdr(m seq[byte], base int, ss int, bs int, s int) int = uninterpreted
+//@ axiom zhdr0(m seq[byte], base int, ss int, bs int): zhdr(m, base, ss, bs, 0) == 0
+//@ axiom zhdrS(m seq[byte], base int, ss int, bs int, s int): s >= 0 ==> zhdr(m, base, ss, bs, s + 1) == zhdr(m, base, ss, bs, s) + zrun(m, base + s * ss, bs)
+// free blocks according to the header bits of the whole store
+//@ spec func (bks *Blocks) freeBits() int = zhdr(bytesOfArr(bks.bts.sarr), bks.bts.soff, bks.ss(), bks.blkSize, bks.segments)
+
+// initAvailabe counts exactly the zero header bits (Available is an int32: exact whenever the count fits)
 //@ func (bks *Blocks) initAvailabe() error
 //@   props C17
 //@   requires bks.wf()
 //@   modifies bks.available
 //@   ensures r0 == nil
+//@   ensures [C17] count: bks.freeBits() <= 2147483647 ==> bks.available == bks.freeBits()
 //@   loop 1
 //@     invariant bks.wf() && 0 <= s && s <= bks.segments && 0 <= cnt && cnt <= s * bks.blksInSegm
+//@     invariant cnt == zhdr(bytesOfArr(bks.bts.sarr), bks.bts.soff, bks.ss(), bks.blkSize, s)
 //@     decreases bks.segments - s
 //@   loop 2
 //@     invariant bks.wf() && 0 <= s && s < bks.segments && len(buf) == bks.blkSize && 0 - 1 <= rangeindex && rangeindex <= len(buf) - 1
 //@     invariant 0 <= cnt && cnt <= s * bks.blksInSegm + (rangeindex + 1) * 8
+//@     invariant arr(buf) == bks.bts.sarr && off(buf) == bks.bts.soff + s * bks.ss()
+//@     invariant cnt == zhdr(bytesOfArr(bks.bts.sarr), bks.bts.soff, bks.ss(), bks.blkSize, s) + zrun(bytesOfArr(bks.bts.sarr), bks.bts.soff + s * bks.ss(), rangeindex + 1)
 //@     decreases len(buf) - rangeindex
 //@   loop 3
-//@     unroll 8
+//@     invariant bks.wf() && 0 <= s && s < bks.segments && len(buf) == bks.blkSize && 0 <= rangeindex && rangeindex <= len(buf) - 1 && j <= 8
+//@     invariant arr(buf) == bks.bts.sarr && off(buf) == bks.bts.soff + s * bks.ss() && v == buf[rangeindex]
+//@     invariant 0 <= cnt && cnt <= s * bks.blksInSegm + rangeindex * 8 + j
+//@     invariant cnt == zhdr(bytesOfArr(bks.bts.sarr), bks.bts.soff, bks.ss(), bks.blkSize, s) + zrun(bytesOfArr(bks.bts.sarr), bks.bts.soff + s * bks.ss(), rangeindex) + zbl(v, j)
+//@     decreases 8 - j
 
 //@ func NewBlocks(bs int, bts Buffer, fit bool) (*Blocks, error)
 //@   props C17
 //@   requires bufOK(bts)
 //@   ensures r1 == nil ==> fresh(r0) && r0.wf() && r0.blkSize == bs && r0.bts == bts && r0.freeIdx == 0 && r0.segments == bts.ssize / ((bs * 8 + 1) * bs) && (fit ==> bts.ssize % ((bs * 8 + 1) * bs) == 0)
 //@   ensures r1 != nil ==> r0 == nil && errIs(r1, errors.ErrInvalid)
+// opening a store: Available is exactly the number of zero header bits (= blocks not allocated), whatever the bytes are
+//@   ensures [C17] count: r1 == nil && r0.freeBits() <= 2147483647 ==> r0.available == r0.freeBits()
 // a geometry that does not fit the store is rejected
 //@   ensures bs < 1 || bs > 1<<27 ==> r1 != nil
 //@   ensures bs >= 1 && bs <= 1<<27 && (bts.ssize < (bs * 8 + 1) * bs || (fit && bts.ssize % ((bs * 8 + 1) * bs) != 0)) ==> r1 != nil
